@@ -40,11 +40,16 @@ META = {
             "every valid history up to length 2 over the full alphabet, 182 break/repair/touch histories (each bundled file "
             "- direct, transitive, data file, internal source - broken by a parse error, removal or a require cycle, "
             "repaired to the original or to new content, and every file of the dependency graph touched while broken and "
-            "after the repair), then seeded random histories up to length 12 "
+            "after the repair), 38 `.luaurc` histories (the alias of a bundled require switched, removed, broken, shadowed by "
+            "a closer .luaurc, alone or together with the entry, over several passes, in path and in luau require mode), "
+            "then seeded random histories up to length 12 "
             "(quick) or 40 (thorough); a history is non-trivial when some process after the first one reprocesses or "
             "deletes something; distinct by event sequence; for the oracle stream the unit is a process point and "
             "non-trivial means all hypotheses of the theorem hold there",
-    "assumptions": ["xform_frame: a successful transformation result depends only on the source text and the registered "
+    "assumptions": ["xform reads the CURRENT file system at every pass (configuration file, .luaurc, required files): the "
+                    "model passes the file system of the pass to xform and the correspondence compares the result with a "
+                    "fresh run made in a new thread, so a cache that survives a pass shows up as a mismatch",
+                    "xform_frame: a successful transformation result depends only on the source text and the registered "
                     "external files (checked on every real result of the run)",
                     "hash_faithful: configurations with equal hashes behave equally (the run checks the hash is "
                     "injective on the configurations it uses; xxh3 collisions are not considered)",
@@ -78,8 +83,12 @@ KNOWN_CLASSES = {
     "F3": "remove-directory-stale-node-index:WorkerTree::remove_source-directory-arm",
     "F4": "remove-directory-dependents-not-restarted:WorkerTree::remove_source-directory-arm",
     "F6": "no-pruning-without-snapshot:WorkerTree::clean_files",
+    "F7": "luaurc-not-registered:PathRequireMode::initialize",
 }
 KNOWN_TEXT = {
+    "F7": "a `.luaurc` that resolves an alias of a bundled require is read but not registered as an external "
+          "dependency: editing, removing or creating it alone (reported through source_changed / remove_source) "
+          "restarts nothing and the bundle keeps the old alias target",
     "F6": "when the output folder did not exist before the first run no snapshot is taken and clean_files prunes "
           "nothing: the directories of removed outputs stay behind empty (a fresh run does not create them)",
     "F1": "a source that stops transforming keeps the output of an earlier pass (a fresh run writes nothing for it)",
@@ -91,8 +100,19 @@ KNOWN_TEXT = {
 }
 
 
+PATH_NAMES = {}
+
+
 def cpath(p):
-    return "[" + "; ".join(C.coq_string(x) for x in p.split("/")) + "]"
+    """paths are defined once in the preamble and used by name (keeps the case terms small)"""
+    if p not in PATH_NAMES:
+        PATH_NAMES[p] = "p%d" % len(PATH_NAMES)
+    return PATH_NAMES[p]
+
+
+def path_definitions():
+    return "".join("Definition %s : path := [%s].\n" % (name, "; ".join(C.coq_string(x) for x in p.split("/")))
+                   for p, name in PATH_NAMES.items())
 
 
 def cblob(i):
@@ -222,8 +242,11 @@ def touched_paths(ev):
 def attempts(rec):
     """for every process step: source -> (step of its last attempt, files that attempt certainly
     read and inlined according to the harness's knowledge of the templates)"""
+    if "_attempts" in rec:
+        return rec["_attempts"]
     last = {}
     table = {}
+    rec["_attempts"] = table
     prev = None
     for k, step in enumerate(rec["steps"]):
         if step["ev"] == "P" and step.get("state"):
@@ -267,8 +290,16 @@ def classify(rec, k, step, scope):
         if exp.get(p) == got.get(p):
             continue
         w, f = witems.get(p), fitems.get(p)
+        reported = set()
+        if w is not None:
+            since, read = attempts(rec).get(k, {}).get(w["source"], (0, set()))
+            for s_ in rec["steps"][since + 1:k]:
+                reported.update(touched_paths(s_["ev"]))
         if w is None or f is None:
             classes.add("?")
+        elif any(is_luaurc(q) for q in reported) and not (reported & (read | {w["source"]})):
+            # a .luaurc changed since the item was last attempted and nothing restarted the item
+            classes.add("F7")
         elif w["status"] == "err" and f["status"] == "err" and p in got and p not in exp:
             classes.add("F1")      # the failing item kept the output of an earlier pass
         elif w["status"] == "err" and f["status"] == "ok":
@@ -290,41 +321,90 @@ def classify(rec, k, step, scope):
     return classes
 
 
+def is_luaurc(path):
+    return path == ".luaurc" or path.endswith("/.luaurc")
+
+
+def luaurc_view(ufs):
+    return tuple(sorted((p, b) for p, b in ufs.items() if is_luaurc(p)))
+
+
+def frame_conflicts(entries):
+    """entries: (deps, out, ufs) of successful or failed transformations of ONE (configuration, source,
+    source text).  The hypothesis xform_frame: a successful result stays the same on every file system
+    that agrees on its registered dependencies.  Returns (genuine, explained_by_luaurc) conflict lists."""
+    genuine, luaurc = [], []
+    for deps1, out1, ufs1 in entries:
+        if out1 is None:
+            continue
+        for deps2, out2, ufs2 in entries:
+            if (deps2, out2) == (deps1, out1):
+                continue
+            if all(ufs2.get(d) == ufs1.get(d) for d in deps1):
+                (luaurc if luaurc_view(ufs1) != luaurc_view(ufs2) else genuine).append(((deps1, out1), (deps2, out2)))
+    return genuine, luaurc
+
+
+def fresh_entries(rec, upto=None):
+    """(configuration, source, source blob) -> [(deps, out or None, ufs)] from the fresh runs of a history"""
+    table = {}
+    cfg = 0
+    for k, step in enumerate(rec["steps"]):
+        if upto is not None and k > upto:
+            break
+        if step["ev"].startswith("C:"):
+            cfg = int(step["ev"][2:])
+        if step["ev"] != "P" or "fresh" not in step or not step["fresh"]["state"]:
+            continue
+        ufs = step["user_files"]
+        for it in step["fresh"]["state"]["items"]:
+            out = step["fresh"]["out"].get(it["output"]) if it["status"] == "ok" else None
+            table.setdefault((cfg, it["source"], ufs.get(it["source"])), []).append((tuple(it["deps"]), out, ufs))
+    return table
+
+
+def history_frame_ok(rec, upto):
+    """does the real transformation satisfy xform_frame on the results seen in this history (up to a step)"""
+    if "_frame_bad_from" not in rec:
+        bad_from = None
+        for k in process_points(rec):
+            if any(any(frame_conflicts(entries)) for entries in fresh_entries(rec, k).values()):
+                bad_from = k
+                break
+        rec["_frame_bad_from"] = bad_from
+    return rec["_frame_bad_from"] is None or upto < rec["_frame_bad_from"]
+
+
 def check_xform_hypotheses(records):
     """the section hypotheses about xform, tested on every real transformation result seen:
     success-only frame, registered dependencies exist and lie outside the output folder"""
-    groups = {}
     n = 0
     problems = []
+    known_luaurc = 0
+    merged = {}
     for rec in records:
-        cfg = 0
-        for step in rec["steps"]:
-            if step["ev"].startswith("C:"):
-                cfg = int(step["ev"][2:])
-            if step["ev"] != "P" or "fresh" not in step or not step["fresh"]["state"]:
-                continue
-            ufs = step["user_files"]
-            for it in step["fresh"]["state"]["items"]:
-                if it["status"] != "ok":
+        for key, entries in fresh_entries(rec).items():
+            for deps, out, ufs in entries:
+                if out is None:
                     continue
-                out = step["fresh"]["out"].get(it["output"])
-                # blob numbers are per harness run: never compare across streams
-                key = (rec["stream"], cfg, it["source"], ufs.get(it["source"]))
-                view = tuple((d, ufs.get(d)) for d in it["deps"])
                 n += 1
-                for d, c in view:
-                    if c is None:
-                        problems.append(("deps_exist", rec["h"], it["source"], d))
+                for d in deps:
+                    if ufs.get(d) is None:
+                        problems.append(("deps_exist", rec["h"], key[1], d))
                     if d.startswith("out/"):
-                        problems.append(("deps_outside", rec["h"], it["source"], d))
-                groups.setdefault(key, {}).setdefault(view, set()).add((out, tuple(it["deps"])))
-    # frame: same configuration, source text and content of the registered files -> same result;
-    # and a successful result must stay the same on any file system that agrees on its dependencies
-    for key, views in groups.items():
-        for view, results in views.items():
-            if len(results) > 1:
-                problems.append(("xform_frame", key, view, sorted(map(str, results))[:2]))
-    return n, len(groups), problems
+                        problems.append(("deps_outside", rec["h"], key[1], d))
+            # blob numbers are per harness run: never compare across streams
+            bucket = merged.setdefault((rec["stream"],) + key, {})
+            for deps, out, ufs in entries:
+                relevant = tuple(sorted((p, b) for p, b in ufs.items()
+                                        if not p.startswith("src/") or p == "src/sub/b.lua" or is_luaurc(p)))
+                bucket.setdefault((deps, out, relevant), (deps, out, ufs))
+    for key, bucket in merged.items():
+        genuine, luaurc = frame_conflicts(list(bucket.values()))
+        known_luaurc += len(luaurc)
+        for conflict in genuine[:1]:
+            problems.append(("xform_frame", key, [str(c) for c in conflict]))
+    return n, len(merged), problems, known_luaurc
 
 
 def run(ctx):
@@ -341,6 +421,7 @@ def run(ctx):
         ("exhaustive, reduced alphabet", ["enum", "--len", "3" if quick else "4"]),
         ("exhaustive, full alphabet", ["enum", "--len", "2", "--alphabet", "full"]),
         ("break / repair / touch every bundled file", ["breakfix"]),
+        (".luaurc aliases changing between passes, path and luau require mode", ["luaurc"]),
         ("random", ["random", "--seed", str(ctx.seed), "--n", "200" if quick else "1500",
                     "--len", "12" if quick else "40"]),
     ]
@@ -369,7 +450,7 @@ def run(ctx):
         for k, v in hashes.items():
             all_hashes.setdefault(k, set()).update(v)
         cases.append((cid, term))
-    diags = dict(C.run_coq_cases(ctx.prop, PREAMBLE, cases, chunk=min(60, max(20, len(cases) // (3 * C.NPROC) + 1))))
+    diags = dict(C.run_coq_cases(ctx.prop, PREAMBLE + path_definitions(), cases, chunk=min(60, max(20, len(cases) // (3 * C.NPROC) + 1))))
     if len(diags) != len(cases):
         raise C.CheckBroken("expected a diagnosis for every history (%d), got %d" % (len(cases), len(diags)))
 
@@ -421,7 +502,9 @@ def run(ctx):
             step = rec["steps"][k]
             n_points += 1
             scope = scopes[j] if j < len(scopes) else "?"
-            in_scope = scope == "RPDH"
+            # X: the hypothesis xform_frame holds on the real results of this history so far
+            scope += "X" if history_frame_ok(rec, k) else "x"
+            in_scope = scope == "RPDHX"
             n_in_scope += in_scope
             if step["equal_fresh"]:
                 continue
@@ -494,14 +577,18 @@ def run(ctx):
                 prune_cases.append((len(prune_cases), "(mkPrune [%s] [%s] [%s] [%s] [%s] [%s])" % tuple(
                     "; ".join(cpath(p) for p in l) for l in (
                         snapshot, sorted(before), prev["dirs"], removed, written, step["dirs"]))))
-    bad_prune = C.run_coq_cases(ctx.prop, PRUNE_PREAMBLE, prune_cases, tag="prune") if prune_cases else []
+    bad_prune = C.run_coq_cases(ctx.prop, PRUNE_PREAMBLE + path_definitions(), prune_cases, tag="prune") if prune_cases else []
     ctx.stream("real directory: files and directories after every process vs a fresh run; prune_ancestors model vs disk",
                n_disk_points, len(prune_cases), [], prune_model_mismatches=len(bad_prune))
     if bad_prune and not ctx.violations:
         ctx.violation("correspondence broken: Model/Worker.v prune_ancestors and clean_files on disk disagree",
                       {"stream": "prune model-vs-code", "case": prune_cases[bad_prune[0][0]][1][:1500]}, found_input=False)
 
-    n_x, n_groups, x_problems = check_xform_hypotheses(records)
+    n_x, n_groups, x_problems, x_luaurc = check_xform_hypotheses(records)
+    if x_luaurc:
+        ctx.violation(KNOWN_TEXT["F7"], {"conflicting_result_pairs": x_luaurc,
+                                         "replay": "harness/target/release/dl-c10 run 'E:.luaurc:2 P'"},
+                      key=KNOWN_CLASSES["F7"])
     for prob in x_problems[:3]:
         ctx.violation("a hypothesis about the transformation (%s) fails on real results" % prob[0],
                       {"what": [str(x) for x in prob]}, key="xform-hypothesis:" + prob[0])
@@ -516,7 +603,7 @@ def run(ctx):
     ctx.stream("output tree after every process vs a fresh darklua_core::process (oracle)", n_points, n_in_scope, [],
                process_points_inside_the_hypotheses=n_in_scope, known_class_hits=class_counts)
     ctx.stream("hypotheses about xform on real results (frame, deps exist, deps outside output)", n_x, n_groups, [],
-               problems=len(x_problems))
+               problems=len(x_problems), frame_conflicts_explained_by_luaurc=x_luaurc)
     ctx.stream("dependencies recorded after a failed bundle contain the files read before the failure",
                n_failed_dep_checks["checked"], n_failed_dep_checks["checked"], [], problems=n_failed_dep_checks["bad"])
 
